@@ -27,12 +27,17 @@ CidCells == {<<"D", c>> : c \in {"marker", "name", "value"}}
 \* a hostile value in a rule / example cell is tried for every field type, in a data cell for every column type
 FieldTypes == {"Integer", "Decimal", "Choice", "Constant", "DateTime", "Pattern", "RegEx", "Text"}
 CheckTypes == {"IsUnique", "DistinctCount"}
+\* the value cell of a data-format row is tried under every property name (whether it applies to the format is the loader's
+\* business: refusing is a legal outcome)
+DProps == {"item delimiter", "quote character", "escape character", "encoding", "allowed characters", "line delimiter", "header",
+           "decimal separator", "thousands separator", "quoting", "skip initial space", "sheet"}
 Targets == {[where |-> "cid", cell |-> c, type |-> t] : c \in CidCells, t \in FieldTypes \cup CheckTypes}
+      \cup {[where |-> "cid", cell |-> <<"D", "value">>, type |-> p] : p \in DProps}
       \cup {[where |-> "data", cell |-> <<"row", "cell">>, type |-> t] : t \in FieldTypes}
 Sensible(t) == IF t.where = "cid"
                THEN (t.cell[1] = "F" /\ t.type \in FieldTypes /\ (t.cell[2] \in {"rule", "example", "length"} \/ t.type = "Text"))
                     \/ (t.cell[1] = "C" /\ t.type \in CheckTypes /\ (t.cell[2] = "rule" \/ t.type = "IsUnique"))
-                    \/ (t.cell[1] = "D" /\ t.type = "Text")
+                    \/ (t.cell[1] = "D" /\ (t.type = "Text" \/ (t.cell[2] = "value" /\ t.type \in DProps)))
                ELSE TRUE
 
 VARIABLES fmt, targets, classes,   \* the case: where the hostile values go
